@@ -63,6 +63,7 @@ M = [
     ('interval-numpy-int-as-nanoseconds', 'streamz/core.py', "        interval = interval.item()\n", "        import pandas as pd\n        interval = pd.Timedelta(interval).total_seconds()\n", ['C13']),
     ('kafka-default-reset-on-callers-dict', 'streamz/sources.py', "            self.consumer_params['auto.offset.reset'] = 'latest'", "            consumer_params['auto.offset.reset'] = 'latest'", ['C09']),
     ('kafka-new-partitions-ignore-committed', 'streamz/sources.py', "                        self.positions.extend(tp.offset for tp in committed)", "                        self.positions.extend(-1001 for tp in committed)", ['C09']),
+    ('connect-does-not-inform-upstream-side', 'streamz/core.py', "        for known, other in ((self, downstream), (downstream, self)):", "        for known, other in ((self, downstream),):", ['C19']),
     ('gather-no-wait-downstream', 'streamz/dask.py', "        result2 = yield self._emit(result, metadata=metadata)", "        result2 = self._emit(result, metadata=metadata)", ['C20']),
 ]
 
